@@ -647,6 +647,38 @@ class STimedelta(timedelta):
     def __hash__(self):
         return 0x5EED
 
+    @property
+    def days(self):
+        return mkint(self.us / 86400000000)
+
+    @property
+    def seconds(self):
+        return mkint((self.us / 1000000) % 86400)
+
+    @property
+    def microseconds(self):
+        return mkint(self.us % 1000000)
+
+    def __floordiv__(self, o):
+        if isinstance(o, timedelta) and not isinstance(o, STimedelta):
+            d = td_us(o)
+            if d > 0:
+                return mkint(self.us / d)
+        if isinstance(o, int) and not isinstance(o, bool) and o > 0:
+            return mktd(self.us / o)
+        raise Unsupported("timedelta // %r" % (o,))
+
+    def __truediv__(self, o):
+        if isinstance(o, timedelta) and not isinstance(o, STimedelta):
+            d = td_us(o)
+            if d > 0:
+                from . import fp
+
+                if fp.IEEE:
+                    return fp.int_div_const(self.us, d)
+                return SRatio(self.us, d, floaty=True)
+        raise Unsupported("timedelta / %r" % (o,))
+
     def total_seconds(self):
         from . import fp
 
